@@ -44,6 +44,7 @@ type HarnessSpec struct {
 	Covers   []string          `json:"covers"` // labels that must be reached on some path
 	MaxSteps int               `json:"max_steps"`
 	Tiers    []string          `json:"tiers"` // tiers in which the harness runs (default: all)
+	Cross    bool              `json:"cross_solver"` // re-decide this harness on a second solver and diff the verdicts
 }
 
 type PropSpec struct {
@@ -512,6 +513,21 @@ func cmdRun(prop string, o runOpts) int {
 		if st.Complete == 0 {
 			fmt.Fprintf(os.Stderr, "vcheck: %s: no complete path (vacuous)\n", h.Name)
 			exit = 2
+		}
+		if h.Cross && o.solver == "z3" {
+			// diff two solvers: same harness on cvc5 must give the same paths and the same verdicts
+			c2 := c
+			c2.Machine.SolverKind = "cvc5"
+			c2.Machine.WantModel = false
+			st2, err2 := symgo.Explore(ld.Prog, fn, []*ssa.Package{hpkg}, c2)
+			agree := err2 == nil && st2.Paths == st.Paths && st2.Complete == st.Complete && st2.Assumed == st.Assumed &&
+				len(st2.Violations) == len(st.Violations) && st2.Discharged == st.Discharged && st2.Solver.Unknown == 0 && st2.Solver.Errors == 0
+			ev.Cross = append(ev.Cross, map[string]interface{}{"harness": h.Name, "second_solver": "cvc5", "paths": st2.Paths, "complete": st2.Complete,
+				"discharged": st2.Discharged, "violations": len(st2.Violations), "unsat": st2.Solver.Unsat, "agrees_with_z3": agree})
+			if !agree {
+				fmt.Fprintf(os.Stderr, "vcheck: %s: SOLVER DISAGREEMENT z3 vs cvc5 (%s | %s) — inconclusive\n", h.Name, st.Summary(), st2.Summary())
+				exit = 2
+			}
 		}
 		allViol = append(allViol, st.Violations...)
 		for _, v := range st.Violations {
